@@ -49,6 +49,15 @@ Definition exact_ok (cs : list (N * N)) (k : nat) (r : list (N * N)) : bool :=
   && forallb (fun c => has_key (fst c) r || forallb (fun x => f_le (snd c) (snd x)) r) cs.
 
 (* cached path: safety facts only, against the vectors d the index stands for *)
+(* cached path, as the PROPERTY states it: at most k, ordered, no duplicate key, every key a currently
+   stored vector, reported with its TRUE score = the score the exact scan gives that pair (the index
+   computes 1 - (1 - cos): equal up to two roundings, see f_close) *)
+Definition cached_true_ok (sc : vec -> N) (d : list (N * vec)) (k : nat) (r : list (N * N)) : bool :=
+  Nat.leb (length r) k
+  && sorted_desc r
+  && nodup_keys r
+  && forallb (fun x => match aget d (fst x) with Some v => f_close (snd x) (sc v) | None => false end) r.
+
 Definition cached_ok (sc : vec -> N) (d : list (N * vec)) (k : nat) (r : list (N * N)) : bool :=
   Nat.leb (length r) k
   && sorted_desc r
@@ -123,7 +132,7 @@ Definition oracle_step (t : stbl) (a' : sst) (o : op) (ob : obs) : bool :=
         let live := tagged td c b (dget d c) in
         let ex := exact_ok (cands (score_of t) 0 (x :: q) live) (N.to_nat k) l in
         match valid (sget a' c) with
-        | Some (_ :: _) => ex || cached_ok (score_of t 10 (x :: q)) live (N.to_nat k) l
+        | Some (_ :: _) => ex || cached_true_ok (score_of t 0 (x :: q)) live (N.to_nat k) l
         | _ => ex
         end
       else true
@@ -132,7 +141,7 @@ Definition oracle_step (t : stbl) (a' : sst) (o : op) (ob : obs) : bool :=
         let live := dget d c in
         let ex := exact_ok (cands (score_of t) 0 (x :: q) live) (N.to_nat k) l in
         match valid (sget a' c) with
-        | Some (_ :: _) => ex || cached_ok (score_of t 10 (x :: q)) live (N.to_nat k) l
+        | Some (_ :: _) => ex || cached_true_ok (score_of t 0 (x :: q)) live (N.to_nat k) l
         | _ => ex
         end
       else true
@@ -233,7 +242,9 @@ Definition check_sparse (c : sparse_case) : N :=
 
 (* ---- the real HNSWIndex, directly (insert n vectors, search_with_ef): the premise of
    C06_cached_safe_partial and the facts of C06_hnsw_search_safe_partial on the implementation.
-   (k, true similarity per node id -- to_similarity(distance_dense) -- , returned (id, score)) *)
+   (k, per node id the EXACT scan's cosine score for (query, node vector) -- VectorEngine::compute_similarity --,
+   returned (id, score)): distinct in-range ids, ordered, at most k, each score the true score up to
+   the two roundings of 1 - (1 - cos) *)
 Definition hnsw_case := (N * list N * list (N * N))%type.
 Definition check_hnsw (c : hnsw_case) : N :=
   let '(k, truth, hits) := c in
@@ -241,6 +252,6 @@ Definition check_hnsw (c : hnsw_case) : N :=
      && nodup_keys hits
      && sorted_desc hits
      && forallb (fun h => match nth_error truth (N.to_nat (fst h)) with
-                          | Some s => N.eqb s (snd h)
+                          | Some s => f_close (snd h) s
                           | None => false end) hits
   then V_OK else V_VIOLATION.
